@@ -132,6 +132,7 @@ pub fn run_case(line: &str) -> String {
         "tsc" => crate::tsetscen::run(&w[1..]),
         "inj" => run_inj(&w[1..]),
         "aes" => crate::aescen::run(&w[1..]),
+        "slt" => crate::slotscen::run(&w[1..]),
         k => format!("ERR unknown-kind {}", k),
     }
 }
